@@ -152,7 +152,10 @@ inline BatteryRecord runBattery(NifFile& nif, bool heavy = true, bool partitionQ
 			MatTransform x;
 			bool hx = nif.GetShapeTransformSkinToBone(s, b, x);
 			BoundingSphere bb;
-			bool hb = heavy && hx ? nif.GetShapeBoneBounds(s, b, bb) : false;   // only for bone indices the skin data knows (the accessor does not range-check)
+			// NiSkinData-based skins: the accessor checks the index itself, so it is asked for every bone the instance lists; BSSkin
+			// (FO4+): only for bone indices the bone data knows (that branch of the accessor does not range-check; observation, DESIGN 8.3)
+			bool niSkin = nif.GetHeader().GetBlock<NiSkinInstance>(s->SkinInstanceRef()) != nullptr;
+			bool hb = heavy && (hx || niSkin) ? nif.GetShapeBoneBounds(s, b, bb) : false;
 			A(fmt("  bone%u w=", b) + hf(flat) + (hx ? " x=" + xf(x) : "") + (hb ? fmt(" b=%g", bb.radius) : ""));
 		}
 		{
